@@ -45,6 +45,18 @@ func genC01(t *core.Tape, tier string) *Scenario {
 				}
 			}
 		}
+		// a sender built from a newer schema: some messages carry a field the
+		// receiver's schema does not know; the binary codec must deliver it
+		if !c.JSON && t.Bool(1, 4, "unknown.fields") {
+			for _, msgs := range []*[][]byte{&p.ReqMsgs, &p.RespMsgs} {
+				for j := range *msgs {
+					if t.Bool(1, 2, "unknown.here") {
+						(*msgs)[j] = append(append([]byte(nil), unknownMarker...), (*msgs)[j]...)
+						sc.Notes["messages_with_unknown_field"]++
+					}
+				}
+			}
+		}
 		stdPrograms(t, p)
 		boundSteps(p)
 		genYield(t, p)
